@@ -83,7 +83,11 @@ fn gen_user(rng: &mut Rng) -> UserKind {
                 UserKind::DeadBands(rng.range(1, 3) as u8)
             } else {
                 let blocks = rng.range(1, 4) as u8;
-                UserKind::FileRead { blocks, block_size: rng.range(1, 20) as u8, abort_at: if rng.chance(1, 4) { Some(rng.below(blocks as u64 + 2) as u8) } else { None } }
+                match rng.below(4) {
+                    0 => UserKind::Directory(rng.below(5) as u8),
+                    1 => UserKind::FileInfo,
+                    _ => UserKind::FileRead { blocks, block_size: rng.range(1, 20) as u8, abort_at: if rng.chance(1, 4) { Some(rng.below(blocks as u64 + 2) as u8) } else { None } },
+                }
             }
         }
         10 => UserKind::LinkStatus,
@@ -303,7 +307,8 @@ fn first_func(kind: &UserKind) -> Option<u8> {
             }
         }
         UserKind::DeadBands(_) => 2,
-        UserKind::FileRead { .. } => 25,
+        UserKind::FileRead { .. } | UserKind::Directory(_) => 25,
+        UserKind::FileInfo => 28,
     })
 }
 
@@ -319,6 +324,7 @@ fn expected_steps(kind: &UserKind) -> usize {
                 *blocks as usize + 2
             }
         }
+        UserKind::Directory(_) => 3,
         UserKind::Command { sbo: true, .. } => 2,
         UserKind::TimeSync(1) | UserKind::TimeSync(2) => 2,
         _ => 1,
@@ -497,7 +503,7 @@ pub fn analyse(case: &SmastCase, run: &MastRun) -> (Option<Violation>, bool, u64
                 }
                 let task = tasks[ti].clone();
                 let consistent = |u: &User| -> bool {
-                    if matches!(u.kind, UserKind::FileRead { .. }) {
+                    if matches!(u.kind, UserKind::FileRead { .. } | UserKind::Directory(_)) {
                         return first_func(&u.kind) == Some(task.func)
                             && u.t <= task.start_t
                             && match (&task.end, &u.done) {
@@ -667,7 +673,7 @@ pub fn analyse(case: &SmastCase, run: &MastRun) -> (Option<Violation>, bool, u64
         }
 
         let Some((done_t, _, ok, outcome)) = user.done.clone() else { continue };
-        let is_file = matches!(user.kind, UserKind::FileRead { .. });
+        let is_file = matches!(user.kind, UserKind::FileRead { .. } | UserKind::Directory(_));
 
         // F: a file reader gets `opened`, then the blocks in order with the file's contents, then exactly one terminal callback
         if let UserKind::FileRead { blocks, block_size, abort_at } = &user.kind {
@@ -880,6 +886,23 @@ pub fn analyse(case: &SmastCase, run: &MastRun) -> (Option<Violation>, bool, u64
                 ));
             }
         }
+        if let UserKind::Directory(n) = &user.kind {
+            // a directory listing that was served faithfully arrives complete; success always carries exactly the entries served
+            if all_valid && !ok {
+                fail(Violation::new(
+                    "C16/faithfully-answered-request-failed",
+                    "directory",
+                    format!("user request {} ({:?}) failed with {} although every step was answered faithfully", user.id, user.kind, outcome),
+                ));
+            }
+            if ok && !outcome.starts_with(&format!("Ok({} entries", n)) {
+                fail(Violation::new(
+                    "C16/directory-listing-differs",
+                    "",
+                    format!("user request {} asked for a directory of {} entries and was told {}", user.id, n, outcome),
+                ));
+            }
+        }
         if all_valid && !ok && !is_file && !matches!(user.kind, UserKind::TimeSync(_)) {
             fail(Violation::new(
                 "C16/faithfully-answered-request-failed",
@@ -966,6 +989,8 @@ fn kind_name(k: &UserKind) -> &'static str {
         UserKind::Empty(_) => "empty-response",
         UserKind::DeadBands(_) => "dead-bands",
         UserKind::FileRead { .. } => "file-read",
+        UserKind::Directory(_) => "directory",
+        UserKind::FileInfo => "file-info",
     }
 }
 
